@@ -35,6 +35,21 @@ func init() {
 		sb.ToLower()
 		return encRows(rowsOf(sb))
 	})
+	// casehex <up|low> <hex bytes>: ToUpper / ToLower on one row of arbitrary bytes (a byte >= 0x80 is outside the residue
+	// alphabets; the row must still keep its length and its ASCII positions may change in letter case only)
+	register("casehex", func(a []string) string {
+		sb := align.NewSeqBag(align.UNKNOWN)
+		if err := sb.AddSequenceChar("s", []uint8(unhex(a[1])), ""); err != nil {
+			return "err"
+		}
+		if a[0] == "up" {
+			sb.ToUpper()
+		} else {
+			sb.ToLower()
+		}
+		out, _ := sb.GetSequenceCharById(0)
+		return hexs(out)
+	})
 	register("unalign", func(a []string) string {
 		sb := mkBag(align.UNKNOWN, decRows(a[0]))
 		return encRows(rowsOf(sb.Unalign()))
